@@ -242,9 +242,11 @@ ORACLES = {
     'C07': [_oracle('one-shot iterator domains: pulls per result, nothing pulled twice (cache on)', 200, 3000, kind='lazy'),
             _oracle('one-shot iterator domains (cache off)', 100, 1500, kind='lazy', caching=False)],
     'C10': [_oracle('for_all over conditions mentioning the universal variable, the free variables, both or neither', 250, 4000, kind='forall'),
-            _oracle('for_all, result cache off', 100, 1500, kind='forall', caching=False)],
+            _oracle('for_all, result cache off', 100, 1500, kind='forall', caching=False),
+            _oracle('for_all with two free variables over one domain', 100, 1500, kind='forall', two_free=True)],
     'C17': [_oracle('concatenate value and membership / negated membership against it', 200, 3000, kind='concat'),
-            _oracle('concatenate with falsy elements', 100, 1500, kind='concat', falsy=True)],
+            _oracle('concatenate with falsy elements', 100, 1500, kind='concat', falsy=True),
+            _oracle('concatenate over a flatten of nested collections', 100, 1500, kind='concat', nested=True)],
     'C18': [_oracle('meaning preserving rewrites (swap, re-associate, mirror, contains/in_, declaration order, domain permutation)', 250, 4000, kind='rewrite')],
     'C11': [_oracle('infer(entity(T(a=x, b=y|y.attr, tag=const), conditions)): constants (None, falsy, iterable), falsy classes, '
                     'bodies with disjunction / negation, zero-solution bodies', 250, 4000, kind='infer'),
